@@ -3,3 +3,4 @@ import BufrSpec.Ops
 import BufrSpec.Ieee
 import BufrSpec.RefDecode
 import BufrSpec.RefEncode
+import BufrSpec.Find
